@@ -336,4 +336,82 @@ theorem step_new_events (stop : Bool) (hooks : List Hook) (s : St) :
           · exact ⟨[.exec t'.hook false t'.ctxs], by simp [hs],
               Or.inr (Or.inr (Or.inr (Or.inr (Or.inr (Or.inl ⟨_, _, rfl⟩)))))⟩
 
+theorem mem_takeWhile_true {α} (p : α → Bool) : ∀ (l : List α) (a : α), a ∈ l.takeWhile p → p a = true
+  | [], _, h => by simp at h
+  | b :: l, a, h => by
+    rw [List.takeWhile_cons] at h
+    split at h
+    · rcases List.mem_cons.mp h with rfl | h
+      · assumption
+      · exact mem_takeWhile_true p l a h
+    · simp at h
+
+/-- what `taskHandleHookRun` makes of the head task before the hook runs: the tasks merged into it are a
+prefix of the rest of the queue, all of the same hook and type; its monitor IDs are its own followed by
+theirs, in order; the merged tasks are gone from the queue. -/
+theorem prepare_shape (stop : Bool) (hooks : List Hook) (t : Task) (rest : List Task) :
+    ∃ merged, rest = merged ++ (prepare stop hooks t rest).2.2 ∧
+      (∀ m ∈ merged, m.hook = t.hook ∧ m.typ = t.typ) ∧
+      (prepare stop hooks t rest).2.1.mons = t.mons ++ merged.flatMap (·.mons) ∧
+      (prepare stop hooks t rest).2.1.typ = t.typ ∧ (prepare stop hooks t rest).2.1.hook = t.hook := by
+  have triv : ∃ merged, rest = merged ++ rest ∧ (∀ m ∈ merged, m.hook = t.hook ∧ m.typ = t.typ) ∧
+      t.mons = t.mons ++ merged.flatMap (·.mons) ∧ t.typ = t.typ ∧ t.hook = t.hook :=
+    ⟨[], by simp, by simp, by simp, rfl, rfl⟩
+  unfold prepare
+  simp only
+  split
+  · split
+    · cases hc : combine stop t rest with
+      | none => exact triv
+      | some p =>
+        obtain ⟨t', rest'⟩ := p
+        simp only [combine] at hc
+        split at hc
+        · cases hc
+        · simp only [Option.some.injEq, Prod.mk.injEq] at hc
+          obtain ⟨rfl, rfl⟩ := hc
+          refine ⟨rest.takeWhile (combinable stop t), (List.takeWhile_append_dropWhile).symm, ?_, rfl, rfl, rfl⟩
+          intro m hm
+          have := mem_takeWhile_true _ _ _ hm
+          simp only [combinable, Bool.and_eq_true, beq_iff_eq] at this
+          exact ⟨this.1.1, this.1.2⟩
+    · exact triv
+  · exact triv
+
+/-- which monitors one worker iteration unlocks: those of the head task and of the tasks merged into it, and
+all of these tasks leave the queue in this iteration -/
+theorem unlock_shape (stop : Bool) (hooks : List Hook) (s : St) (ms : List Nat)
+    (h : Ev.unlock ms ∈ (step stop hooks s).log.drop s.log.length) :
+    ∃ t merged, t.typ = .hookRun ∧ s.queue = t :: merged ++ (step stop hooks s).queue ∧
+      (∀ m ∈ merged, m.hook = t.hook ∧ m.typ = .hookRun) ∧ ms = (t :: merged).flatMap (·.mons) := by
+  unfold step at h ⊢
+  split at h
+  · simp at h
+  · rename_i t rest hq
+    simp only [hq]
+    split at h
+    · simp at h
+    · split at h <;> simp at h
+    · rename_i htyp
+      obtain ⟨merged, hrest, hm, hmons, _, _⟩ := prepare_shape stop hooks t rest
+      rw [htyp] at hm
+      split at h
+      · rename_i t' rest' hp
+        rw [hp] at hrest hmons
+        simp only at hrest hmons
+        simp at h
+        exact ⟨t, merged, htyp, by simp [hrest], hm, by simp [h, hmons]⟩
+      · rename_i t' rest' hp
+        rw [hp] at hrest hmons
+        simp only at hrest hmons
+        have fin : ms = t'.mons → ∃ t₁ mg, t₁.typ = TaskType.hookRun ∧ t :: rest = t₁ :: mg ++ rest' ∧
+            (∀ m ∈ mg, m.hook = t₁.hook ∧ m.typ = TaskType.hookRun) ∧ ms = (t₁ :: mg).flatMap (·.mons) :=
+          fun hms => ⟨t, merged, htyp, by simp [hrest], hm, by simp [hms, hmons]⟩
+        split at h
+        · simp at h
+        · by_cases hs : t'.isSync <;> simp [hs] at h
+          simpa using fin h
+        · by_cases hs : t'.isSync <;> simp [hs] at h
+          simpa using fin h
+
 end ShellOp.Startup
